@@ -1,17 +1,36 @@
 import OjgVerif.Props.C05
+import OjgVerif.JPath.LemmasRfc
 import OjgVerif.Gen.JpathFacts
 /-! # C11 — every JSONPath evaluator and data representation agrees with Get
 
-All evaluators are the shared skeleton `evalSel` over per-evaluator selection functions transcribed from
-get.go (FirstFound), has.go, the `locate`/`Walk` methods, node.go; for `Get` the skeleton is proved equal
-to the work-list machine (C05.machine_eq_skeleton), for the others it is tied by the correspondence run.
-The theorems reduce agreement to equalities of selection functions (index arithmetic).
+**What the models are, up front.**
+* Every evaluator is the shared traversal skeleton `evalSel` over per-evaluator *selection functions*. For `Get`
+  the skeleton is proved equal to the work-list machine (C05.machine_eq_skeleton); for the others it is tied to
+  the code by the correspondence run only.
+* FirstFound and Has are **not** independent programs in the model: where get.go/has.go copy Get's code, the
+  model reuses Get's functions, so part of `C11_first`/`C11_has` is definitional. The code paths the model has
+  of its own are: the last-position branches (`First.last`: first element only; the slice test `start < end`
+  / `end < start` and `tv[start]`, `First.sliceLast`), the inner slice push (`First.sliceInner`), on typed data
+  `reflectGetWildOne` (`First.wildOne`, flag `firstTypedWildOne`) and `reflectGetNth(tv, start)` (flag
+  `firstTypedSlice`), Has's missing kinds and missing descent `default:` (flags `hasTypedMap`,
+  `hasTypedDescent`, `Has.sel.sets`). The theorems say these agree with Get's; that the model has the right
+  code paths is the run's business.
+* A **representation** (`Rep`) is a two-field tag (array kind, object kind) on the same `JV` value. It selects
+  between branch tables of the model: the slice normalisation (`Get.normFor`: `[]any`/`Indexed` clamp the end for
+  both step signs, `gen.Array` for a positive step only, typed data go through `reflectGetSlice` = `Get.rnorm`
+  and push the reversed result instead of using the truncated division), the members a wildcard, descent or
+  filter sees (`Get.wildKids`, `Get.filterKids`, `nodesInnerCut`: flags `typedMapWild`, `typedObjFilter`), what
+  First/Has/Walk do on typed data (flags above, `walkTypedArray`). Reflection, `Keyed`, `Indexed`, struct tags,
+  pointers are **not** modelled; `C11_repr_current` says that these branch tables select the same elements —
+  that the branch tables are what the reflect/Keyed/Indexed code does is established by the correspondence run
+  on real typed Go data (reflect.SliceOf/ArrayOf/StructOf/MapOf values and two hand-written collections).
+* Filters are an abstract predicate (see Props/C05.lean).
 
 Deviations are flags of `Cfg`; the general theorems are parametric in the configuration and name the flags
 they need off. `*_current` are the statements for **the code as it is now** (`Cfg.pinned`, after the fixes
 baff053, 0e0caaf, fa2ed77, 5d79291, 360668e, 1af5385, 21977aa, 6d09ec9, 6f19325, 927d89c, c654348): only
-`locStartClamp` and `firstTypedSlice`, both pinned by the suite, are still on. `*_before_*` document what failed before a fix (`Cfg.original`). -/
-set_option linter.unusedSimpArgs false
+`locStartClamp` and `firstTypedSlice`, both pinned by the suite, are still on. `*_before_*` document what
+failed before a fix (`Cfg.original`). -/
 namespace OjgVerif.C11
 open OjgVerif OjgVerif.JPath
 
@@ -142,9 +161,12 @@ theorem C11_walk_get (cfg : Cfg) (hn : cfg.locNegEnd = false) (hw : cfg.walkDesc
   rw [C05.C05_located cfg x d hs he ht hz]
   exact C11_walk cfg hn hw x d hc ht hz
 
-/-- **Locate and Walk for the code as it is now**: exactly the locations of Get's results and no fault, for
-every path not ending in a bare descent in which no slice has a positive start (the start clamp of
-`startEndStep`, which the suite pins, is the one deviation left: known finding C11-locate-start-clamp) -/
+/-- **Locate and Walk for the code as it is now.** RESTRICTION FIRST: the theorem covers only paths in which
+**no slice fragment has a positive start** (`lowStart`: start absent, 0 or negative) — slice.go `startEndStep`
+clamps a start at or beyond the length to the last element (pinned by TestExprLocateAny), which Get does not,
+and whether a positive start is beyond the length depends on the data; known finding C11-locate-start-clamp,
+refuted in general by `C11_locate_full_false`. For the paths it covers, not ending in a bare descent: Locate
+and Walk report exactly the locations of Get's results (as multisets) and Locate does not fault. -/
 theorem C11_locate_walk_current (x : List Frag) (d : JV) (hlow : x.all lowStart = true)
     (ht : endsInDescent x = false) (hz : (jsize d : Int) ≤ maxEnd) :
     (locateM Cfg.pinned Rep.simple x d).Perm (getS Cfg.pinned Rep.simple x d) ∧
@@ -154,10 +176,56 @@ theorem C11_locate_walk_current (x : List Frag) (d : JV) (hlow : x.all lowStart 
    (C11_locate Cfg.pinned rfl x d (Or.inr ⟨rfl, hlow⟩) (Or.inr rfl) ht hz).2,
    C11_walk_get Cfg.pinned rfl rfl x d (Or.inr ⟨rfl, hlow⟩) (Or.inl rfl) (Or.inl rfl) ht hz⟩
 
+/-- included: `$.a[:3]..b[-2:]`, `$[0:2]`, `$[-3::2]`; excluded: `$[1:3]`, `$.a[2:]`, `$[5:0:-1]` (a positive
+start) -/
+example : [Frag.slice (some 0) (some 2) none].all lowStart = true ∧
+    [Frag.slice (some (-3)) none (some 2)].all lowStart = true ∧
+    [Frag.slice (some 1) (some 3) none].all lowStart = false ∧
+    [Frag.child [97], .slice (some 2) none none].all lowStart = false ∧
+    [Frag.slice (some 5) (some 0) (some (-1))].all lowStart = false := by decide
+
 /-- non-trivial instance of the hypotheses of `C11_locate_walk_current`: `$.a[:3]..b[-2:]` -/
 example : [Frag.child [97], .slice none (some 3) none, .descent, .child [98], .slice (some (-2)) none none].all lowStart = true ∧
     endsInDescent [.child [97], .slice none (some 3) none, .descent, .child [98], .slice (some (-2)) none none] = false := by
   decide
+
+/-- a normalized path run through Get (the code as it is now) yields exactly the element it addresses -/
+theorem get_of_address (d : JV) (p : Path) (c : JV) (h : Addr d p c) (hz : (jsize d : Int) ≤ maxEnd) :
+    getM Cfg.pinned Rep.simple (p.map Loc.toFrag) d = [c] := by
+  rw [C05.C05_current _ d (toFrag_not_descent p) hz, evalV, h]
+  rfl
+
+/-- **"Locate and Walk report exactly the normalized paths whose individual Get yields those results"**, for
+the code as it is now, on data whose objects have unique member names (`wf`; a Go map has), under the
+restriction of `C11_locate_walk_current`: every reported location `(p, v)` is a list of member names and
+absolute indexes (by type), `Get` of the path `p` (as `child`/`nth` fragments) on the same data returns exactly
+`[v]`, and the reported values are, as a multiset, Get's results of the original path -/
+theorem C11_locate_walk_addresses_current (x : List Frag) (d : JV) (hw : wf d = true)
+    (hlow : x.all lowStart = true) (ht : endsInDescent x = false) (hz : (jsize d : Int) ≤ maxEnd) :
+    (∀ m ∈ locateM Cfg.pinned Rep.simple x d, getM Cfg.pinned Rep.simple (m.1.map Loc.toFrag) d = [m.2]) ∧
+    ((locateM Cfg.pinned Rep.simple x d).map (·.2)).Perm (getM Cfg.pinned Rep.simple x d) ∧
+    (∀ m ∈ walkM Cfg.pinned Rep.simple x d, getM Cfg.pinned Rep.simple (m.1.map Loc.toFrag) d = [m.2]) ∧
+    ((walkM Cfg.pinned Rep.simple x d).map (·.2)).Perm (getM Cfg.pinned Rep.simple x d) := by
+  have hl := (C11_locate Cfg.pinned rfl x d (Or.inr ⟨rfl, hlow⟩) (Or.inr rfl) ht hz).1
+  have hk := C11_walk Cfg.pinned rfl rfl x d (Or.inr ⟨rfl, hlow⟩) ht hz
+  have hg : getM Cfg.pinned Rep.simple x d = (eval x d).map (·.2) := by rw [C05.C05_current x d ht hz]; rfl
+  refine ⟨?_, ?_, ?_, ?_⟩
+  · intro m hm
+    exact get_of_address d m.1 m.2 (eval_address x d hw m (hl.mem_iff.mp hm)).1 hz
+  · rw [hg]; exact hl.map _
+  · intro m hm
+    exact get_of_address d m.1 m.2 (eval_address x d hw m (hk.mem_iff.mp hm)).1 hz
+  · rw [hg]; exact hk.map _
+
+/-- the same without the restriction on slices, for the denotation itself: every located element of
+`Spec.eval` is addressed by its path (`eval_address`) -/
+theorem C11_eval_addresses (x : List Frag) (d : JV) (hw : wf d = true) :
+    ∀ m ∈ eval x d, eval (m.1.map Loc.toFrag) d = [m] :=
+  fun m hm => (eval_address x d hw m hm).1
+
+/-- non-trivial instance of `wf`: `{"a":[{"b":1},{"b":2}],"c":{}}`; a repeated name is not well-formed -/
+example : wf (.obj [([97], .arr [.obj [([98], .int 1)], .obj [([98], .int 2)]]), ([99], .obj [])]) = true ∧
+    wf (.obj [([97], .int 1), ([97], .int 2)]) = false := by decide
 
 /-- every flag off: every path not ending in a bare descent -/
 theorem C11_locate_walk_fixed (x : List Frag) (d : JV) (ht : endsInDescent x = false)
@@ -356,9 +424,11 @@ theorem C11_first_typed_slice_witness :
 
 /-! ## The model of the current code is the current code's -/
 
-/-- `Cfg.pinned` has exactly the deviations the extractor finds in jp/*.go as it is now (`Gen.JpathFacts`,
-regenerated on every run): undoing one of the repairs, or repairing one of the two pinned deviations, breaks
-this theorem — and with it the claim that the `_current` theorems are about the code -/
+/-- A **regression tripwire**, not a proof about the code: `Gen.JpathFacts` holds one Bool per deviation,
+computed by the extractor by searching the printed function bodies of jp/*.go for the line a repair put in or
+took out (tools/extract/jpath.go); this theorem is `decide` over those Bools. It says `Cfg.pinned` carries
+exactly the deviations whose tell-tale lines are in the source now, so undoing a repair (or repairing one of
+the two pinned deviations) breaks the build. That the model matches the code otherwise is the run's business. -/
 theorem pinned_is_source :
     Cfg.pinned.innerEmptySlice = Gen.JpathFacts.innerEmptySlice ∧
     Cfg.pinned.descentSiblings = Gen.JpathFacts.descentSiblings ∧
